@@ -10,6 +10,11 @@
 (* integer lag sums  S_b(tau) = Sum_t z_b(t) z_b(t+tau)  given here.  The  *)
 (* denominator convention of the lag estimator (n-tau-1, n-tau, n-1, n) is  *)
 (* not part of the property: the harness takes the hull over the four.     *)
+(* Preprocessing and units: a constant offset of every feature (with and   *)
+(* without the centring flag - the analysis is one of anomalies either     *)
+(* way) and a last block of microscopic amplitude (x 1e-7, a variable in   *)
+(* other units) leave every prediction unchanged: autocorrelations are     *)
+(* scale free and the block series still span the retained subspace.       *)
 (***************************************************************************)
 EXTENDS Naturals, Integers, Sequences, FiniteSets, SequencesExt, TLC
 
@@ -35,7 +40,10 @@ LagSum(p, tau) == IF tau >= Len(p) THEN 0 ELSE SumSeq([i \in 1..(Len(p) - tau) |
 Trap2(p, tm) == LagSum(p, 0) + 2 * SumSeq([t \in 1..(tm - 1) |-> LagSum(p, t)]) + LagSum(p, tm)
 
 Init == /\ phase = "cfg" /\ pred = <<>>
-        /\ \E ps \in PatternSets, tm \in TauMaxs : cfg = [blocks |-> ps, taumax |-> tm]
+        /\ \E ps \in PatternSets, tm \in TauMaxs, center \in BOOLEAN, offset \in BOOLEAN, micro \in BOOLEAN :
+              /\ cfg = [blocks |-> ps, taumax |-> tm, center |-> center, offset |-> offset, micro |-> micro]
+              /\ (~center) => offset              \* without an offset the flag is immaterial: one of the two suffices
+              /\ micro => (center /\ ~offset)     \* vary one at a time
 Do == /\ phase = "cfg" /\ phase' = "done" /\ UNCHANGED cfg
       /\ pred' = [b \in 1..Len(cfg.blocks) |->
                     [name |-> cfg.blocks[b].name, amp |-> cfg.blocks[b].amp, len |-> Len(Pat(cfg.blocks[b].name)),
@@ -53,6 +61,13 @@ C19_DistinctNorms ==
     Done => \A a, b \in 1..Len(cfg.blocks) : (a # b) =>
                cfg.blocks[a].amp * cfg.blocks[a].amp * Len(Pat(cfg.blocks[a].name))
              # cfg.blocks[b].amp * cfg.blocks[b].amp * Len(Pat(cfg.blocks[b].name))
+\* C19: nothing that is predicted depends on the offset, the centring flag or the units of a block
+C19_PreprocessingImmaterial ==
+    Done => pred = [b \in 1..Len(cfg.blocks) |->
+                      [name |-> cfg.blocks[b].name, amp |-> cfg.blocks[b].amp, len |-> Len(Pat(cfg.blocks[b].name)),
+                       lagsums |-> [t \in 1..(cfg.taumax + 1) |-> LagSum(Pat(cfg.blocks[b].name), t - 1)],
+                       trap2 |-> Trap2(Pat(cfg.blocks[b].name), cfg.taumax),
+                       persistent |-> Trap2(Pat(cfg.blocks[b].name), cfg.taumax) > 0]]
 \* lag-0 sum is the squared norm and bounds every other lag sum
 C19_LagSumsBounded == Done => \A b \in 1..Len(pred) : \A t \in 1..Len(pred[b].lagsums) :
                                  pred[b].lagsums[t] <= pred[b].lagsums[1] /\ -pred[b].lagsums[t] <= pred[b].lagsums[1]
